@@ -372,6 +372,16 @@ func init() {
 	intrinsics["internal/race.ReadRange"] = nop
 	intrinsics["internal/race.WriteRange"] = nop
 
+	// package osm's init parses its embedded polygon rule table with encoding/json
+	// (reflection); the table is loaded from a native dump instead (see loadPolyDump).
+	intrinsics["encoding/json.Unmarshal"] = func(in *Interp, c *callCtx) Value {
+		if len(c.g.frames) > 0 && strings.HasSuffix(c.g.frames[len(c.g.frames)-1].fn.String(), "osm.init#1") {
+			in.loadPolyDump(c.args[1])
+			return Iface{}
+		}
+		in.unsupported("encoding/json.Unmarshal (reflection) outside the known init")
+		return nil
+	}
 	intrinsics["internal/reflectlite.TypeOf"] = func(in *Interp, c *callCtx) Value { return Iface{t: opaqueT} }
 	intrinsics["reflect.TypeOf"] = func(in *Interp, c *callCtx) Value { return Iface{t: opaqueT} }
 	// ---- errors.Is / errors.As use reflectlite
@@ -758,4 +768,11 @@ func (in *Interp) copyCell(c *Cell, cells map[*Cell]*Cell, maps map[*MapObj]*Map
 		}
 	}
 	return n
+}
+
+func (in *Interp) loadPolyDump(target Value) {
+	// filled in by C18 support; without a dump the table stays empty
+	if in.ex != nil && in.ex.polyDump != nil {
+		in.ex.polyDump(in, target)
+	}
 }
